@@ -448,6 +448,15 @@ func (p *Plan) RunWith(pool *Pool, certs []*CertEnt, noup bool) *Result {
 			break // a panic: the history ends here
 		}
 	}
+	// after the history (nothing of this is part of it): the signer objects Signers() hands out now are used the way
+	// an ssh client uses them - Sign, and SignWithAlgorithm with each algorithm the key supports
+	faultFree := len(p.CtorFault) == 0
+	for _, op := range p.Ops {
+		faultFree = faultFree && len(op.Faults) == 0 && op.Kind != OpClose
+	}
+	if faultFree && len(sim.Bad) == 0 && !sim.TimeAmbiguous {
+		sim.ProbeSigners()
+	}
 	return res
 }
 
